@@ -261,6 +261,7 @@ fn explore_tree(
         min_frontier: 64,
         record: true,
         garbage: false,
+        menu: None,
     };
     let v = V {
         rep,
@@ -280,6 +281,7 @@ fn explore_tree(
 
 /// Hidden subcommand: one fresh process = one replay of every history; writes (path, hash) pairs.
 pub fn child(args: &[String]) -> i32 {
+    crate::app::REDIRECTS.store(true, std::sync::atomic::Ordering::Relaxed);
     let depth: usize = mc_kit::arg_value(args, "--depth").and_then(|s| s.parse().ok()).unwrap_or(3);
     let max_out: usize = mc_kit::arg_value(args, "--max-out")
         .and_then(|s| s.parse().ok())
@@ -717,6 +719,8 @@ fn equality(rep: &Reporter) -> EqStats {
 
 pub fn run(tier: Tier, args: &[String]) -> i32 {
     let rep = Reporter::new("C11", tier);
+    // the programs with the redirect middleware are part of this check's app
+    crate::app::REDIRECTS.store(true, std::sync::atomic::Ordering::Relaxed);
     let depth: usize = mc_kit::arg_value(args, "--depth")
         .and_then(|s| s.parse().ok())
         .unwrap_or(tier.pick(4, 5));
@@ -861,6 +865,7 @@ pub fn run(tier: Tier, args: &[String]) -> i32 {
         "cross_process_history_comparisons": compared,
         "per_process": proc_results,
         "event_alphabet": crate::app::MENU_NAMES,
+        "app_programs": "the C09 app with redirects switched on: the legacy POST (43 header lines, body) goes through Redirect::new(2) and the Platform answer triggers a legacy GET with 6 headers through Redirect::default(); the shell's HTTP answers rotate through 201, 404, 302 + absolute Location, 200, 307 + relative Location, Io error, 301 + absolute Location by step number, so probe hops and final answers are covered",
         "history_alphabet": "as C09: menu event | answer(k) for every outstanding request k; includes Http (6 headers), Kv + legacy get, Timer / LTimer (timer ids renamed by the per-core ordinal), legacy Platform + HTTP POST",
         "compared": "FNV-1a 64 (fixed keys) chain over, per step and per bridge (bincode, JSON): outcome class, the returned batch re-encoded with canonical timer ids (re-encoding of the decoded batch is checked to reproduce the bridge's bytes exactly, so this is byte-for-byte up to timer ids), and the serialized view",
         "equality": {
@@ -887,6 +892,7 @@ pub fn run(tier: Tier, args: &[String]) -> i32 {
 }
 
 pub fn replay_file(path: &str) -> i32 {
+    crate::app::REDIRECTS.store(true, std::sync::atomic::Ordering::Relaxed);
     let text = std::fs::read_to_string(path).unwrap_or_else(|e| {
         mc_kit::machinery_error(&format!("cannot read replay {path}: {e}"));
     });
